@@ -4,6 +4,7 @@ use scnr::ScannerBuilder;
 use scnr_verif_harness::astser::{self, RefCache, RefTables};
 use scnr_verif_harness::cfggen::{self, ModeSpec, PatSpec, ProgCfg};
 use scnr_verif_harness::classgen;
+use scnr_verif_harness::world::{self, CompIds, RealWorld, WOp};
 use scnr_verif_harness::proto::{self, TableCache};
 use scnr_verif_harness::real::{self, History, Profile};
 use scnr_verif_harness::rng::Rng;
@@ -624,6 +625,183 @@ fn collect_classes(ast: &regex_syntax::ast::Ast, out: &mut std::collections::BTr
     }
 }
 
+/// Writes the compile table and the dumps of the distinct compilations of a set of configurations.
+/// Returns per configuration the compilation id (None = build error).
+fn write_comps(out: &mut String, cfgs: &[Vec<ModeSpec>], cache: &TableCache, comps: &mut CompIds, with_dumps: bool) -> Vec<Option<usize>> {
+    let mut res = Vec::new();
+    let mut written = std::collections::BTreeSet::new();
+    for (ci, spec) in cfgs.iter().enumerate() {
+        let modes = cfggen::to_modes(spec);
+        let built = catch_unwind(AssertUnwindSafe(|| {
+            ScannerBuilder::new().add_scanner_modes(&modes).build_uncached()
+        }));
+        match built {
+            Ok(Ok(sc)) => {
+                let id = comps.id_of(&sc);
+                if with_dumps && written.insert(id) {
+                    let dump = sc.verif_dump();
+                    let tables = cache.tables(&sc, &dump);
+                    proto::write_scanner(out, &dump, &tables);
+                    // configured transitions/names
+                    for (m, mode) in spec.iter().enumerate() {
+                        let _ = write!(out, "mode {}", m);
+                        for (t, to) in &mode.transitions {
+                            let _ = write!(out, " {} {}", t, to);
+                        }
+                        out.push('\n');
+                        let _ = writeln!(out, "name {}{}", m, proto::cps(&mode.name));
+                    }
+                    let _ = writeln!(out, "savecomp {}", id);
+                }
+                let _ = writeln!(out, "compile {} {}", ci, id);
+                res.push(Some(id));
+            }
+            _ => {
+                let _ = writeln!(out, "compile {} err", ci);
+                res.push(None);
+            }
+        }
+    }
+    res
+}
+
+fn is_iter_call(k: usize, op: &WOp) -> bool {
+    matches!(op, WOp::Next { k: j } | WOp::Peek { k: j, .. } | WOp::SetOff { k: j, .. } | WOp::ISetMode { k: j, .. } | WOp::ICurMode { k: j } if *j == k)
+}
+
+fn affects_iter(k: usize, op: &WOp) -> bool {
+    match op {
+        WOp::Build { .. } | WOp::BuildU { .. } => true,
+        WOp::FindIter { k: j, .. } | WOp::Drop { k: j } => *j == k,
+        WOp::SSetMode { .. } | WOp::SCurMode { .. } => false,
+        _ => is_iter_call(k, op),
+    }
+}
+
+/// C12: interleaved histories over several iterators of several scanners (same cache entry,
+/// uncached, other configuration) over several inputs.
+fn case_c12(seed: u64, idx: usize, cache: &TableCache, out: &mut String, st: &mut Stats) {
+    let mut r = Rng::derive(seed, idx as u64);
+    let pc = ProgCfg { max_modes: 3, max_patterns: 4, lookahead: 15, nullable: true, transitions: true, big_tids: false };
+    let a = cfggen::gen_program(&mut r, &pc);
+    let b = cfggen::gen_program(&mut r, &pc);
+    let cfgs = vec![a.clone(), b.clone()];
+    st.cases += 1;
+    let mut comps = CompIds::default();
+    let mut body = String::new();
+    let _ = writeln!(body, "case {}\nexpect case {}\n# A: {} B: {}", idx, idx, describe(&a).replace('\n', "\\n"), describe(&b).replace('\n', "\\n"));
+    body.push_str("world\n");
+    let ids = write_comps(&mut body, &cfgs, cache, &mut comps, true);
+    if ids[0].is_none() {
+        st.build_err += 1;
+        return;
+    }
+    // inputs: walks through A (and B)
+    let sc_a = ScannerBuilder::new().add_scanner_modes(&cfggen::to_modes(&a)).build_uncached().unwrap();
+    let dump_a = sc_a.verif_dump();
+    let tables_a = cache.tables(&sc_a, &dump_a);
+    let inputs: Vec<String> = (0..3).map(|_| cfggen::gen_input(&mut r, &dump_a, &tables_a, 7)).collect();
+    st.inputs += inputs.len();
+    let n_modes = a.len().min(b.len());
+    let mut ops: Vec<WOp> = vec![
+        WOp::Build { s: 0, cfg: 0 },
+        WOp::Build { s: 1, cfg: 0 },
+        WOp::BuildU { s: 2, cfg: 0 },
+        WOp::Build { s: 3, cfg: 1 },
+    ];
+    let n_scanners = if ids[1].is_some() { 4 } else { 3 };
+    let mut iter_input: std::collections::HashMap<usize, usize> = Default::default();
+    let n_ops = r.range(30, 90);
+    for _ in 0..n_ops {
+        let op = match r.below(100) {
+            0..=39 => WOp::Next { k: r.below(4) },
+            40..=49 => WOp::Peek { k: r.below(4), n: r.below(4) },
+            50..=61 => {
+                let (k, i) = (r.below(4), r.below(3));
+                iter_input.insert(k, i);
+                WOp::FindIter { s: r.below(n_scanners), k, input: i }
+            }
+            62..=69 => WOp::SSetMode { s: r.below(n_scanners), m: r.below(n_modes) },
+            70..=74 => WOp::SCurMode { s: r.below(n_scanners) },
+            75..=81 => WOp::ISetMode { k: r.below(4), m: r.below(n_modes) },
+            82..=86 => WOp::ICurMode { k: r.below(4) },
+            87..=93 => {
+                let k = r.below(4);
+                match iter_input.get(&k) {
+                    Some(i) => WOp::SetOff { k, o: *r.pick(&world::boundaries(&inputs[*i])) },
+                    None => WOp::ICurMode { k },
+                }
+            }
+            _ => {
+                let k = r.below(4);
+                iter_input.remove(&k);
+                WOp::Drop { k }
+            }
+        };
+        // a peek is often followed by a mode change and a next on the same iterator
+        if let WOp::Peek { k, .. } = op {
+            ops.push(op.clone());
+            if r.chance(35) {
+                ops.push(WOp::ISetMode { k, m: r.below(n_modes) });
+                ops.push(WOp::Next { k });
+            }
+            continue;
+        }
+        ops.push(op);
+    }
+    // interleaved run
+    let mut w = RealWorld::new(&cfgs, &inputs);
+    let mut results: Vec<Option<String>> = Vec::new();
+    for op in &ops {
+        let (line, res) = w.exec(op, &mut comps);
+        world::emit(&mut body, &line, &res);
+        results.push(res);
+        *st.ops.entry(line.split(' ').next().unwrap().to_string()).or_default() += 1;
+    }
+    // implementation-only oracle: every iterator against its projected history on a fresh world
+    for k in 0..4 {
+        let mut w2 = RealWorld::new(&cfgs, &inputs);
+        let mut bad: Option<String> = None;
+        for (i, op) in ops.iter().enumerate() {
+            if !affects_iter(k, op) {
+                continue;
+            }
+            let (line, res) = w2.exec(op, &mut comps);
+            if is_iter_call(k, op) && res != results[i] && bad.is_none() {
+                bad = Some(format!("iterator {} op #{} `{}`: interleaved {:?} vs projected history {:?}", k, i, line, results[i], res));
+            }
+        }
+        match bad {
+            None => body.push_str("oracle ok\nexpect oracle\n"),
+            Some(msg) => {
+                let _ = writeln!(body, "oracle FAIL {}\nexpect oracle", msg.replace('\n', " "));
+            }
+        }
+        // ... and against its history without its own peeks
+        let mut w3 = RealWorld::new(&cfgs, &inputs);
+        let mut bad: Option<String> = None;
+        for (i, op) in ops.iter().enumerate() {
+            if !affects_iter(k, op) || matches!(op, WOp::Peek { .. }) {
+                continue;
+            }
+            let (line, res) = w3.exec(op, &mut comps);
+            if is_iter_call(k, op) && res != results[i] && bad.is_none() {
+                bad = Some(format!("iterator {} op #{} `{}`: with peeks {:?} vs without peeks {:?}", k, i, line, results[i], res));
+            }
+        }
+        match bad {
+            None => body.push_str("oracle ok\nexpect oracle\n"),
+            Some(msg) => {
+                let _ = writeln!(body, "oracle FAIL {}\nexpect oracle", msg.replace('\n', " "));
+            }
+        }
+    }
+    out.push_str(&body);
+    if st.samples.len() < 2 {
+        st.samples.push(format!("{} ops over 4 iterators, scanners built from A (cached x2, uncached) and B; inputs {:?}", ops.len(), inputs));
+    }
+}
+
 fn main() {
     // silence panic messages of caught panics
     std::panic::set_hook(Box::new(|_| {}));
@@ -650,6 +828,7 @@ fn main() {
                         "C02" => case_c02(seed, idx, &cache, &rcache, &mut out, &mut st),
                         "C03" => case_c03(seed, idx, &cache, &mut out, &mut st),
                         "C08" => case_c08(seed, idx, &rcache, &mut out, &mut st),
+                        "C12" => case_c12(seed, idx, &cache, &mut out, &mut st),
                         _ => case_iter(seed, idx, &suite, &cache, &mut out, &mut st),
                     }
                     idx += threads;
